@@ -75,8 +75,13 @@ class Modules:
 		# XXX 標準ライブラリーのロード中に自身がロードされる場合があるため再確認(typing, collections.abc)
 		if module_path not in self.__modules:
 			self.__modules[module_path] = self.__loader.load(ModulePath(module_path, language))
-			self.__load_dependencies(self.__modules[module_path])
-			self.__loader.preprocess(self.__modules[module_path])
+			try:
+				self.__load_dependencies(self.__modules[module_path])
+				self.__loader.preprocess(self.__modules[module_path])
+			except Exception:
+				# ロードに失敗したモジュールを登録したままにしない(再試行時に未完了のモジュールが返却されるのを防ぐ)
+				self.unload(module_path)
+				raise
 
 		return self.__modules[module_path]
 
